@@ -22,7 +22,8 @@ FMT_CASES = ["f%d:L%d:p%d:w1:e%d" % (f, L, p, e) for f in (0, 1) for (L, p) in (
 
 HARNESSES = [
     {"fn": "h_shape", "cases": ["sym", "sym4", "16/4", "8/2", "16/5", "7/2", "4/8", "1/1", "256/256", "10/4", "16/256"],
-     "quick_cases": ["sym4", "16/5", "10/4"], "timeout": {"quick": 90, "thorough": 300}},
+     "quick_cases": ["sym4", "16/5", "10/4", "256/256", "16/256", "1/1"], "timeout": {"quick": 90, "thorough": 300}},
+    {"fn": "h_two_layouts", "cases": ["sym"], "timeout": {"quick": 90, "thorough": 300}},
     {"fn": "h_roundtrip", "cases": RT_CASES, "quick_cases": ["L33:p15", "L17:p15", "L2:p0", "L0:p0:w0", "L33:p31"],
      "timeout": {"quick": 90, "thorough": 300}},
     {"fn": "h_addr", "cases": ["default", "f0"], "timeout": {"quick": 90, "thorough": 300}},
@@ -77,8 +78,17 @@ def h_shape() -> bool:
     else:
         bpl, bpc = [int(x) for x in CASE.split("/")]
         maxlen = min(2 * bpl + 1, 520)
-    L = sym_int("L", 0, maxlen)
-    assume(L <= 2 * bpl + 1)
+    if maxlen > 64:
+        # large layouts: the lengths around the line boundaries
+        opts = [0, 1, bpl - 1, bpl, bpl + 1, 2 * bpl, 2 * bpl + 1]
+        li = sym_int("Li", 0, len(opts) - 1)
+        L = opts[0]
+        for k, v in enumerate(opts):
+            if li == k:
+                L = v
+    else:
+        L = sym_int("L", 0, maxlen)
+        assume(L <= 2 * bpl + 1)
     data = (FILL * 9)[:maxlen]
     try:
         lines = hd.hexdump(memoryview(data[:L]), bpl, bpc)
@@ -259,3 +269,35 @@ def h_hexdisplay() -> bool:
             if len(back) == L:
                 conds.append(bytes_eq(back, data))
     return verdict(sym_all(conds), obs={"printed": texts})
+
+
+def h_two_layouts() -> bool:
+    """
+    post: _
+    """
+    # two dumps with different layouts in one process: each has its own shape (nothing is remembered between calls)
+    a1, c1 = sym_int("bpl1", 1, 4), sym_int("bpc1", 1, 4)
+    a2, c2 = sym_int("bpl2", 1, 4), sym_int("bpc2", 1, 4)
+    lay = []
+    for sa, sc in ((a1, c1), (a2, c2)):
+        bpl = bpc = None
+        for k in range(1, 5):
+            if sa == k:
+                bpl = k
+            if sc == k:
+                bpc = k
+        lay.append((bpl, bpc))
+    data = FILL[:9]
+    outs = []
+    try:
+        for bpl, bpc in lay:
+            outs.append(hd.hexdump(memoryview(data), bpl, bpc))
+    except Exception as e:
+        return verdict(False, obs={"exception": repr(e)})
+    conds = []
+    for (bpl, bpc), lines in zip(lay, outs):
+        nchunks = (bpl + bpc - 1) // bpc
+        width = 8 + 5 + (2 * bpl + 2 * nchunks - 2) + 5 + bpl
+        conds.append(len(lines) == (9 + bpl - 1) // bpl)
+        conds += [len(ln) == width for ln in lines]
+    return verdict(sym_all(conds), obs={"layouts": lay, "widths": [[len(x) for x in o] for o in outs]})
